@@ -367,6 +367,43 @@ def listExtend (a b : PV) : PV :=
   | arr w xs, arr _ ys => arr w (xs ++ ys)
   | _, _ => err "TypeError"
 
+/-- `list.append(x)` on a list of ints (`arr .big`; also: of object handles) -/
+def listAppend (a x : PV) : PV :=
+  match a, x with
+  | err e, _ => err e
+  | _, err e => err e
+  | arr w xs, int i => if 0 ≤ i then arr w (xs ++ [i.toNat]) else err "TypeError"
+  | _, _ => err "TypeError"
+
+/-- `a[i] = v` for an integer index (negative: from the end; out of range: `IndexError`) -/
+def setAt (a i v : PV) : PV :=
+  match a, i, v with
+  | err e, _, _ => err e
+  | _, err e, _ => err e
+  | _, _, err e => err e
+  | arr w xs, int i, int v =>
+    let j := if i < 0 then i + xs.length else i
+    if 0 ≤ j ∧ j < xs.length ∧ 0 ≤ v then arr w (xs.set j.toNat v.toNat) else
+      if 0 ≤ v then err "IndexError" else err "TypeError"
+  | _, _, _ => err "TypeError"
+
+/-- `a[:k]` for `0 ≤ k` (rows of a buffer) -/
+def takeN (a k : PV) : PV :=
+  match a, k with
+  | err e, _ => err e
+  | _, err e => err e
+  | arr w xs, int k => if 0 ≤ k then arr w (xs.take k.toNat) else err "negative-slice"
+  | _, _ => err "TypeError"
+
+/-- `list.index(x)`: first position of `x` (`ValueError` if absent) -/
+def listIndex (a x : PV) : PV :=
+  match a, x with
+  | err e, _ => err e
+  | _, err e => err e
+  | arr _ xs, int i =>
+    if 0 ≤ i then (match xs.idxOf? i.toNat with | some k => int k | none => err "ValueError") else err "ValueError"
+  | _, _ => err "TypeError"
+
 /-- build an object from the attribute list its `__init__` produced -/
 def mkObj (cls : String) (attrs : List PV) : PV :=
   match attrs with
